@@ -65,7 +65,7 @@ def run_shard(sh):
     def bad(kind, feats, detail, replay):
         V.setdefault((kind, tuple(sorted(feats))), dict(kind=kind, features=sorted(feats), detail=detail, replay=replay))
 
-    def loop(code, e_bytes, T, label, as4peer, decoder):
+    def loop(code, e_bytes, T, label, as4peer, decoder, may_refuse=False):
         """post T through both endpoints; octets must equal e_bytes and decode to T"""
         for endpoint in ('json_to_bin', 'send/update'):
             # only one world can be alive at a time (the reactor and the configuration are process-wide)
@@ -97,6 +97,13 @@ def run_shard(sh):
                 new = [d for _, d in tr.written[n0:]]
                 if st == 200 and isinstance(jb, dict) and jb.get('status') is True and len(new) == 1:
                     frame = new[0]
+            if frame is None and may_refuse:
+                # a 4-octet-AS route target / origin for a peer that did not advertise 4-octet AS numbers: the documented
+                # answer is a refusal - which must then have sent nothing
+                res['counters']['as4_text_to_2octet_peer_refused'] = res['counters'].get('as4_text_to_2octet_peer_refused', 0) + 1
+                if endpoint == 'send/update' and len(tr.written) != n0:
+                    bad('refused-but-wrote', feats, 'posting %r to %s was refused (%s) but %d frame(s) were written' % (T, endpoint, str(jb)[:100], len(tr.written) - n0), rep)
+                continue
             if frame is None:
                 bad('text-refused', feats + ['status:%s' % st], 'posting %r (the text rendered for %s) to %s was refused: %s %s' % (T, e_bytes.hex(), endpoint, st, str(jb)[:160]), rep)
                 continue
@@ -135,9 +142,11 @@ def run_shard(sh):
             continue
         kinds_seen.add(e['kind'])
         as4peer = True if e['kind'] in ('rt2', 'ro2') else (True, False, 'nocap')[i % 3]
-        todo.append((as4peer, eb, T[0], e['kind']))
-    for as4peer, eb, T0, k in sorted(todo, key=lambda x: str(x[0])):
-        loop(16, eb, T0, k, as4peer, ExtCommunity.parse)
+        todo.append((as4peer, eb, T[0], e['kind'], False))
+        if e['kind'] in ('rt2', 'ro2') and i % 3:
+            todo.append(((True, False, 'nocap')[i % 3], eb, T[0], e['kind'], True))
+    for as4peer, eb, T0, k, may_refuse in sorted(todo, key=lambda x: str(x[0])):
+        loop(16, eb, T0, k, as4peer, ExtCommunity.parse, may_refuse)
     # ---- communities
     texts = sorted(gen.WELL_KNOWN.values()) + [n.lower() for n in gen.WELL_KNOWN.values()]
     vals = [v for v in gen.WELL_KNOWN] + [(h << 16) | l for h in gen.U16 for l in gen.U16] + [rng.getrandbits(32) for _ in range(sh['n'] // 4)]
